@@ -35,13 +35,25 @@ def run(ctx):
     ctx.ob('C40.decide-and-leave', 'DataPacketReceiver.crc-state.hold', set(hold) == {None}, fsm.state_loc[cs],
            'the CRC decision state must wait while sink.valid is low: outcomes %s' % sorted(map(str, hold)))
     bad_here = [a for a in bad if q.state_of(a) == cs]
-    g = q.atoms(good[0])
-    cmp_atoms = [a for a, p in g if p and 'crc32.crc' in a and ' == ' in a]
-    ok = len(bad_here) == 1 and len(cmp_atoms) == 1 and \
-        q.atoms(bad_here[0]) == (g - {(cmp_atoms[0], True)}) | {(cmp_atoms[0], False)}
-    ctx.ob('C40.two-arms', 'DataPacketReceiver.crc-state.good-xor-bad', ok, good[0].loc,
-           'good and bad must be the two arms of one comparison with crc32.crc: good=%s bad=%s' % (
-               q.fmt(good[0]), [q.fmt(b) for b in bad_here]))
+    # one truth table for both strobes over every condition their drivers mention (whatever the spelling: two arms of
+    # an If/Else, or good.eq(cmp) / bad.eq(~cmp)): never both; good needs the comparison with crc32.crc to hold, bad needs
+    # it to fail; and flipping the comparison alone swaps the two
+    G, B = 'self.packet_good', 'self.packet_bad'
+    tab = [(asg, v) for asg, v in q.flag_values(ir, (G, B), cs)]
+    cmp_atoms = sorted({k for asg, _ in tab for k in asg if 'crc32.crc' in k and ' == ' in k})
+    why = None
+    if len(cmp_atoms) != 1 or not bad_here:
+        why = 'comparisons with crc32.crc: %s' % cmp_atoms
+    else:
+        c = cmp_atoms[0]
+        look = {frozenset(asg.items()): v for asg, v in tab}
+        for asg, v in tab:
+            other = look[frozenset(dict(asg, **{c: not asg[c]}).items())]
+            if (v[G] and v[B]) or (v[G] and not asg[c]) or (v[B] and asg[c]) or v[G] != other[B]:
+                why = 'good=%s bad=%s when %s (and with the comparison flipped good=%s bad=%s)' % (v[G], v[B], asg, other[G], other[B])
+                break
+    ctx.ob('C40.two-arms', 'DataPacketReceiver.crc-state.good-xor-bad', why is None, good[0].loc,
+           'good and bad must be the two outcomes of one comparison with crc32.crc: %s' % why)
     # (b) valid gating of every decision that depends on the received word
     word = {'self.sink.payload', 'self.sink.ctrl'}
     n = 0
